@@ -1087,11 +1087,41 @@ def trace_generated_text(ctx: Ctx, mod, fn, _depth=0, bindings=None):
             problems.append(f"the text passed to {name}() is not the generator's output alone: {norm(s.args[0])[:100] if s.args else '?'}")
         else:
             wrappers.append(name)
+    def is_formatter(f_expr, depth=0):
+        """format_str itself, functools.partial(format_str, ...), or a call of a module function that returns one of those"""
+        if depth > 3:
+            return False
+        f_expr = resolve(f_expr)
+        if dotted(f_expr) in ("format_str", "black.format_str"):
+            return True
+        if isinstance(f_expr, ast.Call) and dotted(f_expr.func) in ("partial", "functools.partial") and f_expr.args:
+            return is_formatter(f_expr.args[0], depth + 1)
+        if isinstance(f_expr, ast.Call) and dotted(f_expr.func) in mod.functions():
+            callee = mod.functions()[dotted(f_expr.func)]
+            rets = [x.value for x in ast.walk(callee) if isinstance(x, ast.Return) and x.value is not None]
+            loc = {}
+            for st_ in ast.walk(callee):
+                if isinstance(st_, ast.ImportFrom) and st_.module == "black":
+                    for al in st_.names:
+                        loc[al.asname or al.name] = al.name
+            def fm(e, d2=0):
+                if isinstance(e, ast.Name) and loc.get(e.id) == "format_str":
+                    return True
+                if dotted(e) in ("format_str", "black.format_str"):
+                    return True
+                if isinstance(e, ast.Call) and dotted(e.func) in ("partial", "functools.partial") and e.args and d2 < 3:
+                    return fm(e.args[0], d2 + 1)
+                return False
+            return bool(rets) and all(fm(x) for x in rets)
+        return False
     for r in [n for n in ast.walk(fn) if isinstance(n, ast.Return) and n.value is not None]:
         v = resolve(r.value)
         if v is gen_call or gen_like(r.value):
             continue
         if isinstance(v, ast.Call) and dotted(v.func) in ("format_str", "black.format_str"):
+            continue
+        if isinstance(v, ast.Call) and v.args and is_formatter(v.func) and gen_like(v.args[0]):
+            wrappers.append("format_str (through a helper)")
             continue
         problems.append(f"returns something other than the (formatted) generator output: {norm(r.value)[:100]}")
     return {"problems": problems, "wrappers": wrappers, "expose": expose}
